@@ -67,6 +67,7 @@ def build_harness():
 
 
 def gen_consts():
+    os.makedirs(os.path.join(COQ, 'Gen'), exist_ok=True)
     rc, out = sh([os.path.join(RUN, 'genconsts'), REPO, os.path.join(COQ, 'Gen', 'Consts.v')], timeout=120)
     if rc != 0:
         raise Broken('genconsts failed:\n' + out)
